@@ -213,7 +213,7 @@ _STA = {}
 
 def _grid_e2e(tier, rng):
     """latitude {-89, -45, 0, 30, 43.6, 89} deg x longitude {-170, 0, 1.44, 120} deg x altitude {-400, 0, 150, 9000} m x 6 (quick: 2) seeded targets given in ITRF (LEO to GEO,
-    below and above the horizon) x 2 dates"""
+    below and above the horizon) x 2 dates; every other station is created under a name used before for another site"""
     k = 0
     for lat in (-89.0, -45.0, 0.0, 30.0, 43.6, 89.0):
         for lon in (-170.0, 0.0, 1.44, 120.0):
@@ -236,7 +236,11 @@ def _(c):
     lat, lon, alt = c.real("lat"), c.real("lon"), c.real("alt")
     key = (lat, lon, alt)
     if key not in _STA:
-        _STA[key] = create_station(f"E2E_{len(_STA)}_{abs(hash(key)) % 10 ** 6}", (lat, lon, alt))
+        name = f"E2E_{len(_STA)}_{abs(hash(key)) % 10 ** 6}"
+        if int(abs(lat) * 10 + abs(lon) + abs(alt)) % 2:
+            # the name has been used before, for another site (re-creating a station under a used name is supported: only a warning is logged)
+            create_station(name, (-lat / 2 + 7.0, lon + 75.0, 10.0))
+        _STA[key] = create_station(name, (lat, lon, alt))
     sta = _STA[key]
     date = [Date(2018, 5, 4, 1, 2, 3), Date(2009, 12, 31, 23, 59, 50)][c.integer("date")]
     # independent WGS-84 (a, 1/f typed here)
